@@ -5,6 +5,7 @@ import GFS.Model.RangeHeader
 import GFS.Spec.RangeSpec
 import GFS.Spec.NameSpec
 import GFS.Spec.ChunkSpec
+import GFS.Model.HostBucket
 /-
   gfsdriver: one request per input line, one answer per output line.
   Answer format:  <model observation> TAB <spec observation or "-">
@@ -95,6 +96,25 @@ def handle (toks : List String) : String :=
     (if decide (NameOk b) then "ok" else "err InvalidBucketName")
   | ["chunk", tail, ewd, bufs, frags, inp] =>
     runChunk tail ewd bufs frags (fromHex inp) ++ "\t-"
+  | ["hostrewrite", hb, bases, host, path] =>
+    let bs := if bases == "~" then [] else (bases.splitOn ",").map fromHex
+    let h := fromHex host
+    let p := fromHex path
+    let rw := serverRewrite (hb == "1") bs h p
+    let (b, k) := routeSplit rw
+    -- specification: host "<label>.<base>" (label without dots) is addressed as path-style "/<label><path>";
+    -- every other host as the path itself
+    let specPath :=
+      if !bs.isEmpty then
+        (match bs.findSome? (fun base =>
+            let nb := normBase base
+            if Bytes.hasSuffix h nb && !(h.take (h.length - nb.length)).contains 46 then some (h.take (h.length - nb.length)) else none) with
+         | some label => (47 :: label) ++ (if p == [47] then [] else p)
+         | none => p)
+      else if hb == "1" then (47 :: firstLabel h) ++ (if p == [47] then [] else p)
+      else p
+    let (sb, sk) := routeSplit specPath
+    s!"path={toHex rw} bucket={toHex b} key={toHex k}\tbucket={toHex sb} key={toHex sk}"
   | ["chunkput", declared, tail, inp] =>
     -- handler level: what a backend that enforces the declared decoded length stores
     let input := fromHex inp
